@@ -277,8 +277,18 @@ def audit(ctx, prop):
 
 def run_model(model, lines, timeout=600):
     exe = uvmodel_path()
-    r = subprocess.run([exe, model], input="\n".join(lines) + "\n", stdout=subprocess.PIPE,
-                       stderr=subprocess.PIPE, text=True, timeout=timeout)
+    r = None
+    try:
+        r = subprocess.run([exe, model], input="\n".join(lines) + "\n", stdout=subprocess.PIPE,
+                           stderr=subprocess.PIPE, text=True, timeout=timeout)
+    except (FileNotFoundError, PermissionError, OSError):
+        pass
+    if (r is None or (r.returncode != 0 and "unknown model" in r.stderr)) and CURRENT_PROP and not os.environ.get("UVMODEL_EXE"):
+        # the shared executable is being relinked, or was relinked with another check's restricted dispatch:
+        # make a private one with the models this check needs
+        _private_uvmodel(CURRENT_PROP, ["uvmodel"])
+        r = subprocess.run([uvmodel_path(), model], input="\n".join(lines) + "\n", stdout=subprocess.PIPE,
+                           stderr=subprocess.PIPE, text=True, timeout=timeout)
     if r.returncode != 0:
         raise RuntimeError("uvmodel %s failed: %s" % (model, r.stderr[-500:]))
     out = r.stdout.split("\n")
